@@ -298,7 +298,9 @@ class _Gen:
         em.ctl(CTL["TO%d" % k])
         col += k
     width = 32 - col
+    plain_start = self.pen_default
     items, text = _row_items(r, width, self.token(), o)
+    cap.setdefault("plain", {})[row] = plain_start and not any(it[0] == "mid" for it in items)
     for i, it in enumerate(items):
       if it[0] == "c":
         em.byte(it[1])
@@ -357,6 +359,27 @@ class _Gen:
         if j and r.random() < 0.15:
           em.newline(self.gap("short"))
         self.row(row, cap)
+      # a PAC back onto a row written earlier in this caption (not the current one), at the column where its text ends (an
+      # indent column): the text goes on there.  (Indents beyond the end of the text are not generated: ttconv documents that it
+      # forces the cursor back to the end of the line.)
+      #  Only rows in the default pen (white, no mid-row code): ttconv continues the existing text element, see the known finding.
+      back = [x for x in rows[:-1] if cap["rows"][x] and (cap["cols"][x] + len(cap["rows"][x])) % 4 == 0
+              and cap["cols"][x] + len(cap["rows"][x]) <= 24 and not cap["rows"][x].endswith(" ") and cap.get("plain", {}).get(x)]
+      if back and r.random() < self.o.get("p_revisit", 0.5):
+        row = r.choice(back)
+        end = cap["cols"][row] + len(cap["rows"][row])
+        col2 = end
+        if col2 <= 24:
+          tok = self.token()[:max(1, min(4, 32 - col2))]
+          v = pac(row, indent=col2)
+          self.pen_default = True
+          em.ok(v)
+          em.ctl(v)
+          for ch in tok:
+            em.byte(ord(ch))
+          em.flush_byte()
+          cap["rows"][row] = cap["rows"][row] + " " * (col2 - end) + tok
+          cap["revisit"] = row
       self.nd_rows.update(rows)
       if r.random() < 0.15:
         em.newline(self.gap("short"))
